@@ -30,6 +30,7 @@ func TestWorker(t *testing.T) {
 		t.Skip("not a worker invocation")
 	}
 	debug.SetMaxStack(64 << 20)
+	raceWorkerInit()
 	var out *os.File
 	if os.Getenv("VERIF_OUT") == "stdout" {
 		out = os.Stdout
@@ -59,14 +60,20 @@ func TestWorker(t *testing.T) {
 		if p == nil {
 			p = gen.Generate(job.Prop, job.Seed, job.Tier)
 		}
-		res := RunPlan(t, p, job.Trace)
+		emit := func(res *EpisodeResult) {
+			res.ID = job.ID
+			b, _ := json.Marshal(res)
+			w.WriteString("RESULT ")
+			w.Write(b)
+			w.WriteString("\n")
+			w.Flush()
+		}
+		res := RunPlan(t, p, job.Trace, emit)
 		watch <- -1
-		res.ID = job.ID
-		b, _ := json.Marshal(res)
-		w.WriteString("RESULT ")
-		w.Write(b)
-		w.WriteString("\n")
-		w.Flush()
+		betweenEpisodes()
+		if !res.Recycle {
+			emit(res)
+		}
 	}
 }
 
